@@ -411,7 +411,7 @@ class MapUpdateClause(ContainerUpdateClause):
     def is_assignment(self):
         if not self._analyzed:
             self._analyze()
-        return self.previous is None and not self._updates and not self._removals
+        return self._operation is None and self.previous is None and not self._updates and not self._removals
 
     def __unicode__(self):
         qs = []
